@@ -7,8 +7,14 @@ CONSTANTS
   MaxWorkers = @WORKERS@
   MemLimit = @MEMLIMIT@
   CtlTake = 1
+  AllowOrphans = @ORPH@
   MaxCuts = @CUTS@
   MaxProxy = @PROXY@
+  MaxCloses = @CLOSES@
+  TmoCalls = @TMO@
+  FFCalls = @FF@
+  CancelCalls = @CANCEL@
+  Outs = @OUTS@
   AllowShutdown = @SHUTDOWN@
   GenMode = FALSE
 SPECIFICATION MCSpec
